@@ -38,6 +38,8 @@ def plan(tier, seed):
         specs.append(("doc-product", i, 4))
     specs.append(("doc-indentation", 0, 2))
     specs.append(("doc-indentation", 1, 2))
+    for i in range(4):
+        specs.append(("eol-defects", i, 4))
     specs.append(("variants", 0))
     for i in range(4):
         specs.append(("cmdline", i, 4))
@@ -59,6 +61,7 @@ def asan_plan(tier):
     specs.append(("cycles-chains",))
     specs += [("doc-product", i, 64 if tier == "quick" else 8) for i in range(8)]
     specs.append(("variants", 0))
+    specs += [("eol-defects", i, 8) for i in range(2)]
     specs += [("multifile", 40 * k, 100 + i) for i in range(8)]
     specs += [("valid-programs", 25 * k, i) for i in range(16)]
     return specs
@@ -83,7 +86,10 @@ class Screen:
     def run(self, cases, sample_rate=0.02):
         """cases: list of {"files": [text...], "defines": [...], "malformed": bool|None, "key": ...}"""
         ctx = self.ctx
-        reqs = [{"op": "compile", "files": c["files"], "defines": c.get("defines", []), "want": self.want} for c in cases]
+        # diagnostics are rendered for every case (human format with snippets / JSON alternately): emitting is part of
+        # "ends by returning diagnostics", and only the binary would otherwise run that code
+        reqs = [{"op": "compile", "files": c["files"], "defines": c.get("defines", []), "want": self.want,
+                 "emit": "human" if i % 3 else "json"} for i, c in enumerate(cases)]
         resps = ctx.worker.batch(reqs)
         rng = ctx.rng("screen/" + self.family)
         for c, r in zip(cases, resps):
@@ -207,6 +213,8 @@ def run_shard(ctx, spec):
         for _ in range(count):
             toks = [rng.choice(fam.TOKENS) for _ in range(rng.randint(4, 60))]
             text = fam.join_soup(toks, rng)
+            if rng.random() < 0.15:
+                text = text.replace("\n", "\r\n")
             prefix = rng.choice(["", "module M\n", "module A::B\n"])
             batch.append({"files": [prefix + text], "malformed": fam.soup_malformed(prefix + text)})
         scr.run(batch)
@@ -216,7 +224,15 @@ def run_shard(ctx, spec):
         batch = []
         for _ in range(count):
             base = rng.choice(fam.VALID_PROGRAMS)
-            batch.append({"files": [fam.mutate(base, rng)]})
+            text = fam.mutate(base, rng)
+            r = rng.random()
+            if r < 0.15:
+                text = text.replace("\n", "\r\n")
+            elif r < 0.2:
+                text = text.replace("\n", "\r")
+            elif r < 0.25:
+                text = text.replace("    ", "\t")
+            batch.append({"files": [text]})
             if rng.random() < 0.1:
                 batch.append({"files": [base]})
         scr.run(batch)
@@ -254,6 +270,13 @@ def run_shard(ctx, spec):
         batch = [{"files": [t], "key": k} for i, (k, t) in enumerate(fam.doc_product_programs()) if i % n == idx]
         scr.run(batch, sample_rate=0.02)
         ctx.stats["doc_product_cases"] += len(batch)
+    elif kind == "eol-defects":
+        _, idx, n = spec
+        batch = [{"files": [t], "key": k} for i, (k, t) in enumerate(fam.eol_defect_programs()) if i % n == idx]
+        scr.run(batch, sample_rate=0.1)
+        ctx.stats["eol_defect_cases"] += len(batch)
+        if idx == 0:
+            ctx.sample({"family": "defect at the end of a line x line ending x context", "example": batch[len(batch) // 2]["files"][0]}, limit=1)
     elif kind == "doc-indentation":
         _, idx, n = spec
         batch = [{"files": [t], "key": k} for i, (k, t) in enumerate(fam.doc_indentation_programs()) if i % n == idx]
@@ -444,7 +467,7 @@ def main(tier, seed):
               "distinct_nontrivial = distinct non-empty inputs"
               % (len(fam.TOKENS), 2 if tier == "quick" else 3)),
         required={"inproc_cases": 5000, "binary_runs": 500, "inproc_error_free": 50, "typeform_position_pairs": 300,
-                  "scaling_instances": 20, "cmdline_runs": 300, "doc_indentation_cases": 100, "doc_product_cases": 1000,
+                  "scaling_instances": 20, "cmdline_runs": 300, "doc_indentation_cases": 100, "doc_product_cases": 1000, "eol_defect_cases": 1000,
                   "asan.inproc_cases": 1500, "asan.binary_runs": 300, "asan.valid_model_programs": 200},
         assumptions=["the time bound is decided on CPU time (rusage / thread clock), never on wall-clock; a watchdog firing below the "
                      "bound is inconclusive", "'grows gently' is only decided as the stated hard bound: 20 s CPU for <= 8 KiB"],
